@@ -3,6 +3,11 @@
 Model (independent of Au): a source quantity x * 10^a [Hz] has period (10^-(a+b) / x) * 10^b [s], so the exact
 conversion constant is K = 10^-(a+b) (same for the time -> frequency direction).  The implicit-rep form must
 compile iff the rep is floating, or K is an integer the rep can hold and K >= 10^6.
+
+Explicit-rep forms: target rep == source rep wherever the rep holds K; target rep wider than the source rep (int64_t,
+double from a narrower integral source; floating target from an int32_t source) must compile and give trunc(K/x) resp.
+K/x; int64_t / double sources into a narrower target.  Replay re-runs the whole instance with the report restricted
+to the recorded (form, x).
 """
 import os
 
@@ -10,13 +15,23 @@ from . import core, model
 from . import c15_common as C
 from .core import BITS, tmax
 
-REPS = ["int32_t", "int64_t", "uint32_t", "int16_t", "uint8_t", "double"]
+REPS = ["int32_t", "int64_t", "uint32_t", "int16_t", "uint8_t", "double", "uint64_t", "float"]
+REPS_THOROUGH = REPS + ["int8_t", "uint16_t", "long double"]
+SPARSE = ("uint64_t", "float", "int8_t", "uint16_t", "long double")   # quick: one unit pair per (direction, K) only
+FP = ("float", "double", "long double")
+WIDE_SRC = ["int16_t", "uint8_t", "int32_t", "uint32_t"]    # source reps of the wider-target explicit forms (int64_t, double)
+FLOAT_KEXP = (-30, 38)       # K = 10^kexp and every K/x of the sweep are normal floats only inside this range
 PFX = [None] + list(model.SI_PREFIXES)          # 25 units per base
 THRESHOLD = 10 ** 6
 
 
 def punit(stem, p):
     return C.unit(stem, p[1] if p else None), (p[3] if p else 0)
+
+
+def fp_in_domain(rep, kexp):
+    """A floating rep can hold K (and K/x for |x| <= 2^16 as a normal number); otherwise no value is promised."""
+    return rep != "float" or FLOAT_KEXP[0] <= kexp <= FLOAT_KEXP[1]
 
 
 def model_accept(rep, kexp):
@@ -49,7 +64,8 @@ def call(fn, form, src, tgt, rep):
     slot = tgt.cpp + "{}" if fn == "inverse_in" else tgt.maker
     if form == "implicit":
         return "(void)au::%s(%s, %s);" % (fn, slot, q)
-    return "(void)au::%s<%s>(%s, %s);" % (fn, rep, slot, q)
+    trep = form[5:] if form.startswith("wide:") else rep
+    return "(void)au::%s<%s>(%s, %s);" % (fn, trep, slot, q)
 
 
 def cname(c):
@@ -67,7 +83,39 @@ def core_cases(cs):
     return out
 
 
-def probes(level):
+def wide_cases(cs, sub, quick):
+    """Cases for the wider-target explicit forms: K = 10^kexp must fit int64_t.  quick: the first pair per (direction, K)."""
+    seen, out = set(), []
+    for ci, (d, src, tgt, kexp) in enumerate(cs):
+        if not 0 <= kexp <= 18 or ci not in sub:
+            continue
+        if not quick or (d, kexp) not in seen:
+            out.append(ci)
+        seen.add((d, kexp))
+    return out
+
+
+def first_cases(cs):
+    """The first unit pair per (direction, K): the smallest sub-grid that still contains every (direction, K)."""
+    seen, out = set(), set()
+    for ci, (d, src, tgt, kexp) in enumerate(cs):
+        if (d, kexp) not in seen:
+            out.add(ci)
+        seen.add((d, kexp))
+    return out
+
+
+def sparse_skip(rep, ci, quick, sub, firsts):
+    """Reps beyond the six main ones: quick -> one unit pair per (direction, K); thorough -> every pair for the integral
+    ones (few K are in their domain), the core sub-grid for float / long double (same code path as double)."""
+    if rep not in SPARSE:
+        return False
+    if quick:
+        return ci not in firsts
+    return rep in FP and ci not in sub
+
+
+def probes(level, quick=True):
     """level 2: implicit-rep probes for every case x rep x {inverse_in, inverse_as} + explicit-rep accept probes where K fits.
     level 1: inverse_in implicit for every case x rep (uint32_t / int64_t outside the core sub-grid: frequency -> time only);
              inverse_as and the explicit form on the core sub-grid only.
@@ -75,14 +123,19 @@ def probes(level):
     ps = []
     cs = cases()
     sub = core_cases(cs)
+    firsts = first_cases(cs)
     for ci, c in enumerate(cs):
         d, src, tgt, kexp = c
         if level == 0 and ci not in sub:
             continue
-        for rep in REPS:
+        for rep in (REPS if quick else REPS_THOROUGH):
             exp = model_accept(rep, kexp)
             if level < 2 and ci not in sub and rep in ("uint32_t", "int64_t") and d == "t2f":
                 continue          # quick: outside the core sub-grid these two reps are probed in one direction only
+            if sparse_skip(rep, ci, quick or level < 2, sub, firsts):
+                continue
+            if not fp_in_domain(rep, kexp):
+                continue          # K is not a (normal) float: nothing is promised either way, not judged
             for fn in ("inverse_in", "inverse_as"):
                 if level < 2 and fn == "inverse_as" and ci not in sub:
                     continue
@@ -91,6 +144,13 @@ def probes(level):
                 if rep in BITS and explicit_in_domain(rep, kexp) and (level == 2 or ci in sub):
                     ps.append(core.Probe((ci, rep, fn, "explicit"), call(fn, "explicit", src, tgt, rep), "accept",
                                          {"case": c, "rep": rep, "fn": fn}))
+    # explicit target rep wider than the source rep: must compile whenever the target rep holds K
+    for ci in wide_cases(cs, sub, quick):
+        c = cs[ci]
+        for rep in WIDE_SRC:
+            for fn, form in (("inverse_as", "wide:int64_t"), ("inverse_in", "wide:double")):
+                ps.append(core.Probe((ci, rep, fn, form), call(fn, form, c[1], c[2], rep), "accept",
+                                     {"case": c, "rep": rep, "fn": fn}))
     return ps
 
 
@@ -109,14 +169,15 @@ def inst_text(iid, c, rep, implicit):
                    "k": k, "srcm": src.maker, "tgtm": tgt.maker}
 
 
-def tu_text(insts, only_x=0):
-    """insts: list of (iid, case, rep, implicit)."""
+def tu_text(insts, only=None):
+    """insts: list of (iid, case, rep, implicit, runner); only = (kind, x) restricts the report to one case (replay)."""
     out = ['#include "c15_inv.hh"', "namespace {"]
-    for (iid, c, rep, imp) in insts:
+    for (iid, c, rep, imp, runner) in insts:
         out.append(inst_text(iid, c, rep, imp))
     out.append("}\nint main() {")
-    for (iid, c, rep, imp) in insts:
-        out.append("  c15::run_inv_%s<I%d>(%d, %dLL);" % ("int" if rep in BITS else "fp", iid, iid, only_x))
+    flt = '"%s", "%s"' % only if only else "nullptr, nullptr"
+    for (iid, c, rep, imp, runner) in insts:
+        out.append("  c15::run_inv_%s<I%d>(%d, %s);" % (runner, iid, iid, flt))
     out.append("  return 0; }")
     return "\n".join(out) + "\n"
 
@@ -128,14 +189,18 @@ class Explorer:
         self.run, self.viol, self.quick = run, viol, run.tier == "quick"
         self.cs = cases()
         self.sub = core_cases(self.cs)
+        self.firsts = first_cases(self.cs)
         self.st = {"unit_pairs": len(self.cs), "core_subgrid_pairs": len(self.sub), "probes_per_config": {},
-                   "probe_accepts": 0, "probe_rejects": 0, "rejects_with_accepted_twin": 0, "sweep_builds": []}
+                   "probe_accepts": 0, "probe_rejects": 0, "rejects_with_accepted_twin": 0, "sweep_builds": [],
+                   "float_instances_K_outside_float_range_not_judged": 0, "reps": list(REPS if self.quick else REPS_THOROUGH)}
         self.verdicts, self.both, self.all_ps, self.S, self.insts = {}, {}, [], [], None
+        self.refused = set()      # (case, source rep) whose explicit-rep / wider-target probe did not compile (a violation)
+        self.reps = REPS if self.quick else REPS_THOROUGH
         self.pre = '#include "c15_common.hh"\n'
 
     def probe(self, cfg, level):
         st, viol = self.st, self.viol
-        ps = probes(level)
+        ps = probes(level, self.quick)
         self.all_ps = self.all_ps or ps
         st["probes_per_config"][cfg.name] = len(ps)
         res, _ = core.run_probes(cfg, ps, os.path.join(self.run.wd, "invp_" + cfg.name), "inv", self.pre, batch=64)
@@ -150,6 +215,8 @@ class Explorer:
             if v != p.expect:
                 if v == "reject":
                     C.guard(diag)
+                    if form != "implicit":
+                        self.refused.add((ci, rep))
                 key = "C15:inverse-%s:%s:%s:%s:rep=%s:K=1e%d" % ("accepted" if v == "accept" else "rejected", form, fn,
                                                                cname(c), rep, c[3])
                 what = ("%s: `%s` is %sed; the model says %s (K = 10^%d, rep %s%s) %s"
@@ -169,22 +236,34 @@ class Explorer:
     def instances(self):
         if self.insts is None:
             self.insts = []
+            wide = set(wide_cases(self.cs, self.sub, self.quick))
             for ci, c in enumerate(self.cs):
-                for rep in REPS:
+                for rep in self.reps:
+                    if (ci, rep) in self.refused:
+                        continue              # already reported: the explicit-rep form of this instance does not compile
+                    if sparse_skip(rep, ci, self.quick, self.sub, self.firsts):
+                        continue
                     imp = all(v == "accept" for v in self.verdicts.get((ci, rep), ["reject"])) and model_accept(rep, c[3])
                     if rep in BITS:
                         if not explicit_in_domain(rep, c[3]):
                             continue
                         if self.quick and not imp and ci not in self.sub:
                             continue          # quick: explicit-only instances on the core sub-grid
+                    elif not fp_in_domain(rep, c[3]):
+                        self.st["float_instances_K_outside_float_range_not_judged"] += 1
+                        continue
                     elif self.quick and ci not in self.sub:
                         continue              # quick: floating instances on the core sub-grid; thorough: all 1250
-                    self.insts.append((len(self.insts), c, rep, imp))
+                    self.insts.append((len(self.insts), c, rep, imp, "int" if rep in BITS else "fp"))
+                if ci in wide:
+                    for rep in WIDE_SRC:      # the source rep cannot hold K, a wider target rep can
+                        if not explicit_in_domain(rep, c[3]) and (ci, rep) not in self.refused:
+                            self.insts.append((len(self.insts), c, rep, False, "wide"))
         return self.insts
 
     def sweep(self, cfg):
         insts, cs, viol = self.instances(), self.cs, self.viol
-        groups = C.split(insts, core.NCPU * 2)
+        groups = C.split(insts, max(core.NCPU * 2, (len(insts) + 99) // 100))      # at most 100 instances per TU
         r = C.build_run(self.run.wd, cfg, "inv", [tu_text(g) for g in groups], C.SWEEP_FLAGS)
         self.st["sweep_builds"].append(str(cfg))
         if len(r["S"]) != len(insts) and not any("trap-signal" in v.get("kind", "") for v in r["V"]):
@@ -192,19 +271,20 @@ class Explorer:
         self.S += r["S"]
         for s in r["S"]:
             if not s["type_ok"]:
-                iid, c, rep, imp = insts[s["inst"]]
+                iid, c, rep, imp, runner = insts[s["inst"]]
                 key = "C15:inverse-unit:%s:rep=%s" % (cname(c), rep)
                 viol(key, "%s: inverse_as(%s, %s<%s>) is not a Quantity<%s, %s>" % (cfg, c[2].maker, c[1].name, rep, c[2].cpp, rep),
-                     {"kind": "inv", "case_index": cs.index(c), "rep": rep, "implicit": imp, "x": 1, "config": [cfg.cxx, cfg.std]})
+                     {"kind": "inv", "case_index": cs.index(c), "rep": rep, "implicit": imp, "runner": runner, "form": None,
+                      "config": [cfg.cxx, cfg.std]})
         for v in r["V"]:
-            iid, c, rep, imp = insts[v["inst"]]
+            iid, c, rep, imp, runner = insts[v["inst"]]
             key = "C15:inverse-value:%s:%s:rep=%s:K=1e%d:x=%s" % (v["kind"], cname(c), rep, c[3], v["x"])
             what = ("%s: %s(%s, %s(%s{%s})) gives %s; trunc(K/x) with K = 10^%d is %s"
                     % (cfg, v["kind"], c[2].name, c[1].name, rep, v["x"], v["got"], c[3], v["exp"]))
             if v["kind"] == "roundtrip":
                 what = ("%s: inverse_as(%s, inverse_as(%s, %s(%s{%s}))) gives %s, not %s (K = 10^%d)"
                         % (cfg, c[1].name, c[2].name, c[1].name, rep, v["x"], v["got"], v["exp"], c[3]))
-            viol(key, what, {"kind": "inv", "case_index": cs.index(c), "rep": rep, "implicit": imp, "x": int(float(v["x"])),
+            viol(key, what, {"kind": "inv", "case_index": cs.index(c), "rep": rep, "implicit": imp, "runner": runner,
                              "source_value": v["x"], "form": v["kind"], "config": [cfg.cxx, cfg.std]})
 
     def summary(self):
@@ -212,7 +292,8 @@ class Explorer:
         st["unit_pairs_with_both_verdicts"] = sum(1 for s in self.both.values() if len(s) == 2)
         st.update({"sweep_instances": len(insts),
                    "implicit_integral_instances": sum(1 for i in insts if i[3] and i[2] in BITS),
-                   "explicit_only_integral_instances": sum(1 for i in insts if not i[3] and i[2] in BITS),
+                   "explicit_only_integral_instances": sum(1 for i in insts if not i[3] and i[2] in BITS and i[4] == "int"),
+                   "wider_target_only_instances": sum(1 for i in insts if i[4] == "wide"),
                    "floating_instances": sum(1 for i in insts if i[2] not in BITS),
                    "value_evaluations": sum(s["evals"] for s in S), "roundtrip_evaluations": sum(s["rt"] for s in S),
                    "instances_with_zero_and_nonzero_results": sum(1 for s in S if s["zero"] and s["nonzero"]),
@@ -225,6 +306,10 @@ class Explorer:
 def replay_inv(r, cfg, wd):
     cs = cases()
     c = cs[r["case_index"]]
-    rec = C.build_run(wd, cfg, "rpinv", [tu_text([(0, c, r["rep"], r["implicit"])], only_x=int(r["x"]))], C.SWEEP_FLAGS)
-    hits = [str(v) for v in rec["V"]] + ["result unit/type wrong" for s in rec["S"] if not s["type_ok"]]
-    return hits
+    runner = r.get("runner") or ("int" if r["rep"] in BITS else "fp")
+    form = r.get("form")
+    only = (form, r["source_value"]) if form and not form.startswith("trap") else None
+    rec = C.build_run(wd, cfg, "rpinv", [tu_text([(0, c, r["rep"], r["implicit"], runner)], only=only)], C.SWEEP_FLAGS)
+    if form is None:
+        return ["result unit/type wrong" for s in rec["S"] if not s["type_ok"]]
+    return [str(v) for v in rec["V"] if v["kind"] == form and v["x"] == r["source_value"]]
